@@ -8,6 +8,7 @@ import (
 	"errors"
 	"net"
 	"net/http"
+	"sync"
 	"time"
 
 	"github.com/julienschmidt/httprouter"
@@ -138,6 +139,10 @@ type Frontend struct {
 	tlsSrv *http.Server
 	tlsCfg *tls.Config
 
+	// wg tracks the serving goroutines and the post-response hooks still
+	// running, so that Stop only completes once they are done.
+	wg sync.WaitGroup
+
 	logic frontend.TrackerLogic
 	Config
 }
@@ -198,8 +203,32 @@ func NewFrontend(logic frontend.TrackerLogic, provided Config) (*Frontend, error
 		}
 	}
 
+	// Create the servers before serving, so that Stop always sees them.
 	if cfg.Addr != "" {
+		f.srv = &http.Server{
+			Addr:         f.Addr,
+			Handler:      f.handler(),
+			ReadTimeout:  f.ReadTimeout,
+			WriteTimeout: f.WriteTimeout,
+			IdleTimeout:  f.IdleTimeout,
+		}
+		f.srv.SetKeepAlivesEnabled(f.EnableKeepAlive)
+	}
+	if cfg.HTTPSAddr != "" {
+		f.tlsSrv = &http.Server{
+			Addr:         f.HTTPSAddr,
+			TLSConfig:    f.tlsCfg,
+			Handler:      f.handler(),
+			ReadTimeout:  f.ReadTimeout,
+			WriteTimeout: f.WriteTimeout,
+		}
+		f.tlsSrv.SetKeepAlivesEnabled(f.EnableKeepAlive)
+	}
+
+	if cfg.Addr != "" {
+		f.wg.Add(1)
 		go func() {
+			defer f.wg.Done()
 			if err := f.serveHTTP(listenerHTTP); err != nil {
 				log.Fatal("failed while serving http", log.Err(err))
 			}
@@ -207,7 +236,9 @@ func NewFrontend(logic frontend.TrackerLogic, provided Config) (*Frontend, error
 	}
 
 	if cfg.HTTPSAddr != "" {
+		f.wg.Add(1)
 		go func() {
+			defer f.wg.Done()
 			if err := f.serveHTTPS(listenerHTTPS); err != nil {
 				log.Fatal("failed while serving https", log.Err(err))
 			}
@@ -228,7 +259,16 @@ func (f *Frontend) Stop() stop.Result {
 		stopGroup.AddFunc(f.makeStopFunc(f.tlsSrv))
 	}
 
-	return stopGroup.Stop()
+	c := make(stop.Channel)
+	go func() {
+		errs := stopGroup.Stop().Wait()
+		// Shutdown has closed the listeners and waited for the handlers; now
+		// wait for the serving goroutines and the post-response hooks.
+		f.wg.Wait()
+		c.Done(errs...)
+	}()
+
+	return c.Result()
 }
 
 func (f *Frontend) makeStopFunc(stopSrv *http.Server) stop.Func {
@@ -255,16 +295,6 @@ func (f *Frontend) handler() http.Handler {
 // serveHTTP blocks while listening and serving non-TLS HTTP BitTorrent
 // requests until Stop() is called or an error is returned.
 func (f *Frontend) serveHTTP(l net.Listener) error {
-	f.srv = &http.Server{
-		Addr:         f.Addr,
-		Handler:      f.handler(),
-		ReadTimeout:  f.ReadTimeout,
-		WriteTimeout: f.WriteTimeout,
-		IdleTimeout:  f.IdleTimeout,
-	}
-
-	f.srv.SetKeepAlivesEnabled(f.EnableKeepAlive)
-
 	// Start the HTTP server.
 	if err := f.srv.Serve(l); !errors.Is(err, http.ErrServerClosed) {
 		return err
@@ -275,16 +305,6 @@ func (f *Frontend) serveHTTP(l net.Listener) error {
 // serveHTTPS blocks while listening and serving TLS HTTP BitTorrent
 // requests until Stop() is called or an error is returned.
 func (f *Frontend) serveHTTPS(l net.Listener) error {
-	f.tlsSrv = &http.Server{
-		Addr:         f.HTTPSAddr,
-		TLSConfig:    f.tlsCfg,
-		Handler:      f.handler(),
-		ReadTimeout:  f.ReadTimeout,
-		WriteTimeout: f.WriteTimeout,
-	}
-
-	f.tlsSrv.SetKeepAlivesEnabled(f.EnableKeepAlive)
-
 	// Start the HTTP server.
 	if err := f.tlsSrv.ServeTLS(l, "", ""); !errors.Is(err, http.ErrServerClosed) {
 		return err
@@ -338,7 +358,11 @@ func (f *Frontend) announceRoute(w http.ResponseWriter, r *http.Request, ps http
 		return
 	}
 
-	go f.logic.AfterAnnounce(ctx, req, resp)
+	f.wg.Add(1)
+	go func() {
+		defer f.wg.Done()
+		f.logic.AfterAnnounce(ctx, req, resp)
+	}()
 }
 
 // scrapeRoute parses and responds to a Scrape.
@@ -397,5 +421,9 @@ func (f *Frontend) scrapeRoute(w http.ResponseWriter, r *http.Request, ps httpro
 		return
 	}
 
-	go f.logic.AfterScrape(ctx, req, resp)
+	f.wg.Add(1)
+	go func() {
+		defer f.wg.Done()
+		f.logic.AfterScrape(ctx, req, resp)
+	}()
 }
